@@ -423,7 +423,20 @@ class Interp:
                     cur = env.get(fn.value.id, TOP)
                     if cur[0] == 'coll' and v[0] == 'coll':
                         env[fn.value.id] = join(cur, v)
+                    elif cur[0] in ('coll', 'map'):
+                        raise Outside('{} of a tracked collection with an unrecognised argument: {}'.format(name, u(e)))
+                elif isinstance(fn.value, ast.Subscript) and isinstance(fn.value.value, ast.Name):
+                    # W1[r1].update(words): the entry of the map grows
+                    m = env.get(fn.value.value.id, TOP)
+                    if m[0] == 'map':
+                        if v[0] != 'coll':
+                            raise Outside('{} of a map entry with an unrecognised argument: {}'.format(name, u(e)))
+                        env[fn.value.value.id] = ('map', join(m[1], v))
                 return NONE
+            if name in ('setdefault', 'insert', '__setitem__', '__ior__') and isinstance(fn.value, (ast.Name, ast.Subscript)):
+                base = fn.value if isinstance(fn.value, ast.Name) else fn.value.value
+                if isinstance(base, ast.Name) and env.get(base.id, TOP)[0] in ('coll', 'map'):
+                    raise Outside('mutation of a tracked collection outside the fragment: ' + u(e))
             if name == 'union':
                 out = self.ev(fn.value, env, f)
                 for a in e.args:
